@@ -120,7 +120,7 @@ func streamC08(env *runEnv) {
 	}
 	for rep := 0; rep < reps; rep++ {
 		for _, ss := range sizeSets {
-			for mode := 0; mode < 7; mode++ {
+			for mode := 0; mode < 8; mode++ {
 				n := 6
 				if mode == 1 || mode == 2 {
 					n = 40
@@ -148,6 +148,13 @@ func streamC08(env *runEnv) {
 		}
 		if j.close {
 			pkts = append(pkts, packet(ptCloseChannel, nil))
+		}
+		bad := -1
+		if j.mode == 7 {
+			// bytes that can never be framed (a length field below the header size) in the middle of the exchange
+			bad = 4 + jr.Intn(len(pkts)-3)
+			u := packetWithLen(ptData, []byte("never-framed"), uint32(jr.Intn(8)))
+			pkts = append(pkts[:bad], append([][]byte{u}, pkts[bad:]...)...)
 		}
 		stream := cat(pkts...)
 		var starts []int
@@ -198,6 +205,10 @@ func streamC08(env *runEnv) {
 				cuts = append(cuts, c)
 			}
 			reads = cutAt(stream, cuts)
+		case 7: // the unframeable packet's header arrives over two reads; everything else one packet per read
+			cuts := append([]int{}, starts[1:]...)
+			cuts = append(cuts, starts[bad]+1+jr.Intn(7))
+			reads = cutAt(stream, sorted(cuts))
 		case 6: // every packet cut once at a random position
 			cuts := append([]int{}, starts[1:]...)
 			for k := range pkts {
@@ -216,6 +227,9 @@ func streamC08(env *runEnv) {
 			return append(it, item{eof: true})
 		}
 		cls := classify(pkts, reads)
+		if j.mode == 7 {
+			cls = "unframeable-header-over-two-reads"
+		}
 		seg, whole := mk(reads), mk(pkts)
 		a := e.runProcess(cfg, seg)
 		b := e.runProcess(cfg, whole)
